@@ -31,16 +31,30 @@ open Purr Purr.Spec
 theorem graph_fixed_point (g : Graph) (hw : WellFormed g) (es : List (Event × Nat)) (ord : List Nat)
     (h : walkRecL g = some (es, ord)) (hne : es ≠ []) :
     ∃ t g', write? (es.map (·.1)) = some t ∧ (read t).2 = .ok ∧ build? (read t).1 = some (.ok g') ∧
+      (∃ es' ord', walkRecL g' = some (es', ord')) ∧
       ∀ es' ord', walkRecL g' = some (es', ord') → write? (es'.map (·.1)) = some t := by
-  obtain ⟨g1, hb, _, _, _, hfix⟩ := rtc_fix g hw es ord h
+  obtain ⟨g1, hb, _, _, _, hfix, f, r, hcomps⟩ := rtc_fix g hw es ord h
   have hconf : Conformant (es.map (·.1)) := conformant_of_walkRec g es ord h
   have hne' : es.map (·.1) ≠ [] := by simpa using hne
   obtain ⟨t, hw', hr⟩ := C09.read_write _ (C01.conformantNE_of_nonempty hconf hne')
-  refine ⟨t, g1.map normAtom, hw', by rw [hr], ?_, ?_⟩
-  · rw [hr]
+  have hbuild : build? (read t).1 = some (.ok (g1.map normAtom)) := by
+    rw [hr]
     simp only
     rw [build_norm, hb]
     rfl
+  refine ⟨t, g1.map normAtom, hw', by rw [hr], hbuild, ?_, ?_⟩
+  · -- THE SECOND TRAVERSAL SUCCEEDS: it runs in lockstep with the first (`comps_fix`), so it needs no ring number the
+    -- first one did not need
+    have hwf : WellFormed (g1.map normAtom) := C10.build_ok_wellformed _ (C08.reader_conformant t) _ hbuild
+    have hloop := comps_loop (g1.map normAtom) hwf f (List.range (g1.map normAtom).length) [] .init r.1 r.2.1 r.2.2 hcomps
+      [] [] [] (fun x => Iff.rfl)
+    have hok : (walk (g1.map normAtom)).2 = .ok := by
+      unfold walk
+      rw [(validate_none_iff _).mpr hwf]
+      simp only
+      rw [hloop]
+    obtain ⟨es', ord', hr', _⟩ := walkRec_of_walk_ok _ hwf hok
+    exact ⟨es', ord', hr'⟩
   · intro es' ord' h'
     rw [hfix es' ord' h', C09.write_norm]
     exact hw'
@@ -49,20 +63,19 @@ theorem graph_fixed_point (g : Graph) (hw : WellFormed g) (es : List (Event × N
     (by C06/C11 the only alternative is D17), writing it reproduces the text character for character -/
 theorem graph_fixed_point_walk (g : Graph) (hw : WellFormed g) (hok : (walk g).2 = .ok) (hne : (walk g).1 ≠ []) :
     ∃ t g', write? (walk g).1 = some t ∧ (read t).2 = .ok ∧ build? (read t).1 = some (.ok g') ∧
-      ((walk g').2 = .ok → write? (walk g').1 = some t) := by
+      (walk g').2 = .ok ∧ write? (walk g').1 = some t := by
   obtain ⟨es, ord, hr, hev⟩ := walkRec_of_walk_ok g hw hok
   have hne' : es ≠ [] := by intro e; subst e; simp at hev; exact hne hev
-  obtain ⟨t, g', h1, h2, h3, h4⟩ := graph_fixed_point g hw es ord hr hne'
-  refine ⟨t, g', by rw [← hev]; exact h1, h2, h3, ?_⟩
-  intro hok'
-  have hw' : WellFormed g' := C10.build_ok_wellformed _ (C08.reader_conformant t) g' h3
-  obtain ⟨es', ord', hr', hev'⟩ := walkRec_of_walk_ok g' hw' hok'
-  rw [← hev']; exact h4 es' ord' hr'
+  obtain ⟨t, g', h1, h2, h3, ⟨es', ord', hr'⟩, h4⟩ := graph_fixed_point g hw es ord hr hne'
+  have hwalk := walk_eq_walkRec g' es' ord' hr'
+  refine ⟨t, g', by rw [← hev]; exact h1, h2, h3, by rw [hwalk], ?_⟩
+  rw [hwalk]; exact h4 es' ord' hr'
 
 /-- … and for every accepted string that builds: the normal form written for its graph is a fixed point -/
 theorem string_fixed_point (s : Str) (g : Graph) (hb : build? (read s).1 = some (.ok g))
     (es : List (Event × Nat)) (ord : List Nat) (h : walkRecL g = some (es, ord)) (hne : es ≠ []) :
     ∃ t g', write? (es.map (·.1)) = some t ∧ (read t).2 = .ok ∧ build? (read t).1 = some (.ok g') ∧
+      (∃ es' ord', walkRecL g' = some (es', ord')) ∧
       ∀ es' ord', walkRecL g' = some (es', ord') → write? (es'.map (·.1)) = some t :=
   graph_fixed_point g (C10.build_ok_wellformed _ (C08.reader_conformant s) g hb) es ord h hne
 
